@@ -19,6 +19,11 @@ NOTE = ('Trusted: CrossHair byte-code interpreter and its str/int/list/dict/re m
 
 # id -> (level text, design ref)
 CLAIMED = {
+    'C03': ('Stub-level: a defect of every kind at every pre-sandbox step leaves no main/post-setup/act step executed and no sandbox; '
+            'the accessor stages never reach the executor on failure; and the real MainProgram.execute on generated test cases with '
+            'one defective instruction out of a catalogue of 26+5 defects at every phase/position starts no process and creates no '
+            'sandbox (recording subprocess stub, counting resolver), also for the symbol command. Selector-level enumeration, '
+            'exhaustive over the catalogue.', '4/C03'),
     'C04': ('The real full_execution.execute on stub test cases with a real sandbox: for every step family as the site where execution '
             'ends with every kind of ending, with and without --keep, with a misbehaving instruction (chdir, read-only files, '
             'environment changes, removed cwd), the layout seen from inside the first step, tmp/ staying empty, result/ after act, '
